@@ -43,10 +43,16 @@ LeafOnly(o) == o.k \in {"tuple", "ntuple"} /\ \A j \in 1..Len(o.items) : ~IsRef(
 RefCount(h, i) ==
   Cardinality({<<j, m>> \in (1..Len(h)) \X (1..MaxItems + 2) :
                  m <= Len(h[j].items) /\ h[j].items[m].val = -i})
-\* internable (leaf-only) tuples have value semantics in fiddle; CPython has one
-\* empty tuple.  Specifications that do not study interning exclude their sharing.
+\* internable tuples -- all items leaves or, recursively, internable tuples (daglish.is_internable) --
+\* have value semantics in fiddle; CPython has one empty tuple.  Specifications that do not study
+\* interning exclude their sharing (leaf-only named tuples too: the harness cannot tell two apart).
+RECURSIVE InternableAt(_, _)
+InternableAt(h, i) ==
+  /\ h[i].k = "tuple"
+  /\ \A j \in 1..Len(h[i].items) :
+        ~IsRef(h[i].items[j].val) \/ InternableAt(h, -h[i].items[j].val)
 NoSharedInternable ==
-  /\ \A i \in 1..Len(heap) : LeafOnly(heap[i]) => RefCount(heap, i) <= 1
+  /\ \A i \in 1..Len(heap) : (LeafOnly(heap[i]) \/ InternableAt(heap, i)) => RefCount(heap, i) <= 1
   /\ Cardinality({i \in 1..Len(heap) : heap[i].k = "tuple" /\ heap[i].items = <<>>}) <= 1
 
 GenPrune == Adoptable(heap, MaxObjs, MaxItems) /\ NoSharedInternable
